@@ -1,4 +1,5 @@
 import MobiusModel.Transfers
+import MobiusModel.Generated.Consts
 /-!
   C08 — Downloads deliver exactly the file's bytes.
 
@@ -165,6 +166,14 @@ theorem reply_fields (ref : Bytes) (f : StoredFile) (rq : DlRequest) :
     ((downloadReplyFields ref f rq).map (·.data)) =
       [ref, [0, 0], be32 (downloadReply f rq).transferSize, be32 (downloadReply f rq).fileSize] := by
   simp [downloadReplyFields]
+
+/-! Obligations over the constants regenerated from /repo's source on every run. -/
+
+/-- The side-file names the model's `info` / `rsrc` components stand for, and the transfer type. -/
+theorem generated_fork_file_names :
+    Generated.stringConsts.lookup "InfoForkNameTemplate" = some ".info_%s" ∧
+    Generated.stringConsts.lookup "RsrcForkNameTemplate" = some ".rsrc_%s" ∧
+    Generated.miscConsts.lookup "FileDownload" = some 0 := by decide
 
 -- ---------------------------------------------------------------- non-vacuity
 
